@@ -31,6 +31,10 @@ func RunD(c CaseD) core.Result {
 		res.NonTrivial = true
 		res.Labels = append(res.Labels, fmt.Sprintf("oversized-body>=%dKiB", (c.Limit+c.OverBy)>>16<<6))
 	}
+	if len(c.SubMin) > 0 {
+		res.NonTrivial = true
+		res.Labels = append(res.Labels, "sub-minimum-length-words")
+	}
 	if len(c.Visitors) > 0 {
 		res.Labels = append(res.Labels, "other-connections-meanwhile")
 	}
